@@ -311,6 +311,9 @@ qb_log_thread_stop(void)
 		pthread_join(logt_thread_id, NULL);
 	}
 	(void)qb_thread_lock_destroy(logt_wthread_lock);
+	logt_wthread_lock = NULL;
+	wthread_active = QB_FALSE;
+	wthread_should_exit = QB_FALSE;
 	sem_destroy(&logt_print_finished);
 	sem_destroy(&logt_thread_start);
 }
